@@ -648,7 +648,7 @@ def match_known(known, pid, res):
 # ------------------------------------------------------------------------------------------------
 # scheduling
 
-def run_all(insts, harnesses, workdir):
+def run_all(insts, harnesses, workdir, on_result=None):
     results = {}
     lock = threading.Lock()
     cond = threading.Condition(lock)
@@ -676,6 +676,12 @@ def run_all(insts, harnesses, workdir):
             state["mem"] -= inst.mem_gb
             results[inst.name] = r
             cond.notify_all()
+        if on_result is not None:
+            try:
+                on_result(r)
+            except Exception as e:  # a driver bug must not look like a pass
+                r.status = "inconclusive"
+                r.reason = "driver exception while handling the result: %r" % (e,)
         log("[cbmc] %-52s %-12s %6.1fs  %s" % (inst.name, r.status.upper(), r.wall_s,
                                                  r.reason if r.status != "pass" else
                                                  "%d props, %d/%d covers, %d vars, %d MB" % (r.nprops, sum(r.covers.values()), len(r.covers), r.vars, r.peak_rss_mb)))
@@ -747,12 +753,12 @@ def check(pid, plan, tier, only=None, seed=0, evidence=True):
                 build_err = "harness crate %s does not build against /repo:\n%s" % (crate, out[-3000:])
                 break
             harnesses[crate] = hs
-    results = []
-    if prereq_fail is None and build_err is None:
-        results = run_all(insts, harnesses, workdir)
     known = load_known()
     violations, inconclusive, known_hits, unreplayed = [], [], [], []
-    for r in results:
+    hlock = threading.Lock()
+
+    def handle(r):
+        """Called as soon as an instance finishes: replay a failure natively and report it at once."""
         i = r.inst
         if i.expect == "fail":
             # reachability witness: must FAIL on its `assert!(false)`
@@ -763,13 +769,16 @@ def check(pid, plan, tier, only=None, seed=0, evidence=True):
             elif r.status == "pass":
                 r.status = "inconclusive"
                 r.reason = "reachability witness passed: harness is vacuous"
-        if r.status == "fail" and len(violations) >= MAX_REPLAYS:
-            # enough confirmed violations: further solver counterexamples are listed, not replayed (each replay
-            # costs two native test runs; a change that breaks all 64 squares would otherwise take 40 minutes)
-            r.reason = "solver counterexample, not replayed (%d violations already confirmed natively): %s" % (len(violations), r.reason)
-            unreplayed.append(r)
-            continue
         if r.status == "fail":
+            with hlock:
+                enough = len(violations) >= MAX_REPLAYS
+            if enough:
+                # enough confirmed violations: further solver counterexamples are listed, not replayed (each
+                # replay costs two native test runs; a change that breaks all 64 squares would take 40 minutes)
+                r.reason = "solver counterexample, not replayed (%d violations already confirmed natively): %s" % (MAX_REPLAYS, r.reason)
+                with hlock:
+                    unreplayed.append(r)
+                return
             os.makedirs(REPLAYS, exist_ok=True)
             r.replay = replay_native(i, r.values or [], workdir, feature=plan["feature"])
             verdicts = {p: v["verdict"] for p, v in r.replay.items()}
@@ -777,24 +786,31 @@ def check(pid, plan, tier, only=None, seed=0, evidence=True):
                 k = match_known(known, pid, r)
                 rp = os.path.join(REPLAYS, "%s-%s.json" % (pid, re.sub(r"[^A-Za-z0-9_]", "_", i.name)))
                 write_replay(rp, pid, i, r, plan["feature"])
-                if k:
-                    r.known = k
-                    known_hits.append((r, k))
-                else:
-                    violations.append((r, rp))
+                with hlock:
+                    if k:
+                        r.known = k
+                        known_hits.append((r, k))
+                    else:
+                        violations.append((r, rp))
+                if not k:
                     # report at once: a run that is cut short still shows what was confirmed
-                    log("VIOLATION property=%s replay=%s" % (pid, rp))
-                    log("  harness %s: %s" % (r.inst.name, r.reason))
+                    lines = ["VIOLATION property=%s replay=%s" % (pid, rp), "  harness %s: %s" % (i.name, r.reason)]
                     for prof, v in (r.replay or {}).items():
-                        log("  native %s: %s %s" % (prof, v["verdict"], v["panic"]))
+                        lines.append("  native %s: %s %s" % (prof, v["verdict"], v["panic"]))
                         for c in v["cases"][:3]:
-                            log("    CASE " + c)
+                            lines.append("    CASE " + c)
+                    log("\n".join(lines))
             else:
                 r.status = "inconclusive"
                 r.reason = "counterexample did not reproduce natively (%s): a stub, reference or assumption is off: %s" % (
                     verdicts, r.reason)
         if r.status == "inconclusive":
-            inconclusive.append(r)
+            with hlock:
+                inconclusive.append(r)
+
+    results = []
+    if prereq_fail is None and build_err is None:
+        results = run_all(insts, harnesses, workdir, on_result=handle)
     for r, k in known_hits:
         log("KNOWN-FINDING: property=%s %s [%s]" % (pid, k["what"], r.inst.name))
     for r in unreplayed:
